@@ -10,6 +10,7 @@ Targets
                                      advances the controlled clock, running what is due meanwhile)
                  EventLoopScheduler (thread_factory deferred, `run()` called on this thread;
                                      Condition.wait advances the controlled clock)
+                 AsyncIOScheduler   (given a loop object whose call_soon / call_later are agenda entries)
                  and CatchScheduler over TimeoutScheduler
 Codec only: state token k <-> a Python value per profile (plain / falsy); model instant t <->
 float(t) / UTC_ZERO + t s / controlled clock BASE + t s.  No periodic semantics in Python: the
@@ -26,7 +27,7 @@ from typing import Any, Dict, List, Optional
 from props import vt_common
 
 VT_KINDS = ("vts", "test", "hist")
-RT_KINDS = ("timeout", "newthread", "eventloop", "catch_timeout")
+RT_KINDS = ("timeout", "newthread", "eventloop", "catch_timeout", "asyncio")
 FALSY = [None, 0, "", (), False, 0.0, [], {}]
 
 
@@ -345,7 +346,26 @@ def _shims(sim: Sim):
         def start(self):
             self.started = True
 
-    return FakeTimer, FakeEvent, FakeCondition, DeferredThread, ManualThread
+    class FakeHandle:
+        def __init__(self, ent):
+            self.ent = ent
+
+        def cancel(self):
+            self.ent[3] = True
+
+    class FakeLoop:
+        """the part of an asyncio loop AsyncIOScheduler uses, on the agenda"""
+
+        def call_soon(self, fn, *a):
+            return FakeHandle(sim.add(sim.t, lambda: fn(*a)))
+
+        def call_later(self, delay, fn, *a):
+            return FakeHandle(sim.add(sim.t + max(0.0, float(delay)), lambda: fn(*a)))
+
+        def time(self):
+            return sim.t
+
+    return FakeTimer, FakeEvent, FakeCondition, DeferredThread, ManualThread, FakeLoop
 
 
 def perform_rt(scn: Dict[str, Any], kind: str, *, profile: str = "plain", order: str = "after",
@@ -360,7 +380,7 @@ def perform_rt(scn: Dict[str, Any], kind: str, *, profile: str = "plain", order:
     cod = Codec(profile)
     end = float(H) if stop["kind"] == "none" else float(H + 2 + 4 * p)   # stopping scenarios end by themselves well before
     sim = Sim(end, tie_first)
-    FakeTimer, FakeEvent, FakeCondition, DeferredThread, ManualThread = _shims(sim)
+    FakeTimer, FakeEvent, FakeCondition, DeferredThread, ManualThread, FakeLoop = _shims(sim)
     ticks: List[Any] = []
     raised = [0]
     problems: List[str] = []
@@ -391,6 +411,9 @@ def perform_rt(scn: Dict[str, Any], kind: str, *, profile: str = "plain", order:
             target = NewThreadScheduler(thread_factory=DeferredThread)
         elif kind == "eventloop":
             target = loop = EventLoopScheduler(thread_factory=ManualThread, exit_if_empty=True)
+        elif kind == "asyncio":
+            from reactivex.scheduler.eventloop import AsyncIOScheduler
+            target = AsyncIOScheduler(FakeLoop())
         else:
             raise ValueError(kind)
 
